@@ -8,6 +8,7 @@ import (
 	"errors"
 	"fmt"
 	"net"
+	"runtime"
 	"strconv"
 	"time"
 
@@ -66,7 +67,8 @@ type Scenario struct {
 	Hooks        bool `json:"hooks,omitempty"`
 	// Prior: a request call made on the same client before the one under test (state carried between calls).
 	// Kind: "success" (whole reply), "stall" (nothing arrives: ends by the read timeout), "eof", "ioerr", "partial-stall" (half the reply, then nothing),
-	// "nil-request" (the earlier call passes a nil request)
+	// "nil-request" (the earlier call passes a nil request), "cancelled" (the caller's context is cancelled from inside the first read,
+	// before any reply byte: the request was sent and then given up)
 	Prior string `json:"prior,omitempty"`
 	// CustomParse: network clients only: build with NewClient and a wrapped ParseResponseFunc so parser entry is observable
 	CustomParse bool `json:"custom_parse,omitempty"`
@@ -131,17 +133,25 @@ type Recorder struct {
 	seq   *int
 }
 
+// (Each hook yields the processor before it looks at its argument, as a hook that formats and logs would: the bytes it was given
+// must stay what they are for as long as the hook runs.)
 func (r *Recorder) BeforeWrite(b []byte) {
 	*r.seq++
-	r.Calls = append(r.Calls, HookCall{Kind: "write", Data: append([]byte(nil), b...), Seq: *r.seq})
+	seq := *r.seq
+	runtime.Gosched()
+	r.Calls = append(r.Calls, HookCall{Kind: "write", Data: append([]byte(nil), b...), Seq: seq})
 }
 func (r *Recorder) AfterEachRead(b []byte, n int, err error) {
 	*r.seq++
-	r.Calls = append(r.Calls, HookCall{Kind: "read", Data: append([]byte(nil), b...), N: n, Err: err, Seq: *r.seq})
+	seq := *r.seq
+	runtime.Gosched()
+	r.Calls = append(r.Calls, HookCall{Kind: "read", Data: append([]byte(nil), b...), N: n, Err: err, Seq: seq})
 }
 func (r *Recorder) BeforeParse(b []byte) {
 	*r.seq++
-	r.Calls = append(r.Calls, HookCall{Kind: "parse", Data: append([]byte(nil), b...), Seq: *r.seq})
+	seq := *r.seq
+	runtime.Gosched()
+	r.Calls = append(r.Calls, HookCall{Kind: "parse", Data: append([]byte(nil), b...), Seq: seq})
 }
 
 // Outcome is everything observable about the call.
@@ -325,6 +335,8 @@ func Run(sc Scenario) (out Outcome) {
 			// earlier call ends with it instead of the read timeout)
 			pev = []xport.Event{{Kind: "data", N: len(full)}, {Kind: "ioerr", N: 0}}
 		case "stall", "nil-request":
+		case "cancelled":
+			pev = []xport.Event{{Kind: "cancel"}}
 		case "partial-stall":
 			pev = []xport.Event{{Kind: "data", N: len(full) / 2}}
 		case "eof":
@@ -339,6 +351,8 @@ func Run(sc Scenario) (out Outcome) {
 		}
 		for rep := 0; rep < reps; rep++ {
 			script.Reset(full, append([]xport.Event(nil), pev...), false)
+			pctx, pcancel := context.WithCancel(context.Background())
+			script.SetOnCancel(pcancel)
 			pch := make(chan struct{})
 			var ppanic interface{}
 			go func() {
@@ -347,7 +361,7 @@ func Run(sc Scenario) (out Outcome) {
 					// an earlier call with a nil request (fails immediately) must leave the client usable
 					preq = nil
 				}
-				r, err := do(context.Background(), preq)
+				r, err := do(pctx, preq)
 				if err == nil && !cat.IsNilValue(r) {
 					priorResp = r
 				}
@@ -355,15 +369,18 @@ func Run(sc Scenario) (out Outcome) {
 			select {
 			case <-pch:
 			case <-time.After(HangCeiling):
+				pcancel()
 				out.Hung = true
 				out.PriorHung = true
 				return out
 			}
+			pcancel()
 			if ppanic != nil {
 				out.Panic = fmt.Sprintf("earlier call #%d (%s) on the same client panicked: %v", rep+1, sc.Prior, ppanic)
 				return out
 			}
 		}
+		script.SetOnCancel(cancel)
 		script.Reset(append([]byte(nil), sc.Stream...), append([]xport.Event(nil), sc.Events...), sc.WriteErr)
 		if priorResp != nil {
 			out.PriorRespAtReturn = append([]byte(nil), priorResp.Bytes()...)
